@@ -376,11 +376,11 @@ func emitBW(c Case, w *CaseWriter, key string) {
 	if err != nil {
 		w.Count("outcome:error/bw")
 		w.Extra["last_error"] = err.Error()
-		w.Add(coqBrokenBW(c), c, key, false)
+		w.Add("XC ("+coqBrokenBW(c)+")", c, key, false)
 		return
 	}
 	nontriv := countBW(c, obs, w)
-	w.Add(coqBW(c, obs), c, key, nontriv)
+	w.Add("XC ("+coqBW(c, obs)+")", c, key, nontriv)
 }
 
 // ---------------------------------------------------------------- property oracle (hunt)
